@@ -47,6 +47,9 @@ def of_expr(e, env=None):
         if fmt is None:
             return [("opaque", e)]
         args = list(e.right.elts) if isinstance(e.right, ast.Tuple) else [e.right]
+        if not isinstance(e.right, ast.Tuple) and isinstance(e.right, (ast.Name, ast.Attribute, ast.Subscript, ast.Call)) and len([m_ for m_ in _PCT.finditer(fmt) if m_.group(5) != "%"]) > 1:
+            # `"%s-%s" % row` with a row that is itself a tuple (a namedtuple record): its fields fill the placeholders
+            args = [ast.copy_location(ast.Subscript(value=e.right, slice=ast.Constant(value=i_), ctx=ast.Load()), e.right) for i_ in range(len([m_ for m_ in _PCT.finditer(fmt) if m_.group(5) != "%"]))]
         return _percent(fmt, args, e)
     if isinstance(e, ast.BinOp) and isinstance(e.op, ast.Add):
         return _merge(of_expr(e.left, env) + of_expr(e.right, env))
